@@ -39,7 +39,7 @@ def main():
                 fail("value round trip", {"value": v.hex(), "written": _format_string(v).hex(), "read": _parse_string(_format_string(v)).hex()})
         except Exception as e:  # noqa: BLE001
             fail("value round trip raised", {"value": v.hex(), "exc": repr(e)})
-    subs = [None, b"sub", b"s p", b'q"q', b"b\\s", b"a.b", b"CaSe"]
+    subs = [None, b"", b"sub", b"s p", b'q"q', b"b\\s", b"a.b", b"CaSe", b'x"#y', b"a;b", b"a#b", b'"', b"]"]
     vals = [b"", b"v", b" lead", b"trail ", b'q"', b"a\\b", b"x#y", b"x;y", b"l1\nl2", b"t\tt", b"cr\r", b"\rcr"]
     for sub in subs:
         for v1, v2 in itertools.product(vals[:: (2 if tier == "quick" else 1)], vals[1::3]):
@@ -53,11 +53,27 @@ def main():
             c.write_to_file(f)
             try:
                 c2 = ConfigFile.from_file(BytesIO(f.getvalue()))
-                got = list(c2.get_multivar(sec, b"key"))
-                if got != [v1, v2] or c2.get(sec, b"other") != b"o":
+                got = list(c2.get_multivar(sec, b"key")) if sec in c2.sections() else None
+                if got != [v1, v2] or c2.get(sec, b"other") != b"o" or list(c2.sections()) != [sec] or c2 != c:
                     fail("file round trip", {"subsection": None if sub is None else sub.hex(), "values": [v1.hex(), v2.hex()], "got": [g.hex() for g in got]})
             except Exception as e:  # noqa: BLE001
                 fail("file round trip raised", {"subsection": None if sub is None else sub.hex(), "values": [v1.hex(), v2.hex()], "exc": repr(e)[:200], "file": f.getvalue().hex()})
+    # every short value through a whole file (line splitting, comment stripping, continuation handling)
+    m = 3 if tier == "quick" else 4
+    for v in values:
+        if len(v) > m:
+            break
+        cases += 1
+        c = ConfigFile()
+        c.set((b"s", b"t"), b"k", v)
+        f = BytesIO()
+        c.write_to_file(f)
+        try:
+            c2 = ConfigFile.from_file(BytesIO(f.getvalue()))
+            if c2 != c:
+                fail("file round trip of one value", {"value": v.hex(), "file": f.getvalue().hex()})
+        except Exception as e:  # noqa: BLE001
+            fail("file round trip of one value raised", {"value": v.hex(), "exc": repr(e)[:120], "file": f.getvalue().hex()})
     if tier == "thorough":
         with tempfile.TemporaryDirectory() as d:
             gvals = [v for v in values if len(v) <= 3][::5] + vals
